@@ -10,11 +10,19 @@
             COMPLETIONS = ((nIDX zCODE xBODY ((xK xV) ...)) ...)   ascending IDX
             SEEN        = ((zSEQ nMTYPE xMETHOD xBODY ((xK xV) ...)) ...)   ascending SEQ
    A frame list in which some Write is not exactly one decodable frame makes the model answer
-   sdesync. *)
+   sdesync.
+
+   Second shape (harness retain.go, raw protocol / plain codec cells): values HELD while later
+   frames are read.
+   inputs   (sheld nLIM sKIND (xFRAME ...))     KIND = string | bytes; the frames one end wrote, in wire order
+   observed ((zSEQ nMTYPE xBYTES) ...)          ascending 4*SEQ+MTYPE: what the holder of each decoded body
+            (handler for CALL / PUSH, caller for an OK REPLY) reads from its value after the LAST frame
+   The model (Model/ReadBuf.v) reads every frame into the SAME pooled array - the worst case
+   of buffer reuse - and decodes with the code's own zero-copy table [code_zc]. *)
 From Coq Require Import Strings.String Strings.Byte.
 From Coq Require Import List Arith NArith ZArith Bool Lia.
 From Verif Require Import Base.Bytes Base.Val Base.Outcome Model.Quote Model.Args Model.Numfmt
-  Model.StatusQuery Model.Xfer Model.RawProto Model.Wire.
+  Model.StatusQuery Model.Xfer Model.RawProto Model.Wire Model.ReadBuf.
 From Verif Require Corr.C12.
 Import ListNotations.
 
@@ -145,8 +153,60 @@ Definition side_result (cfg : config) (s : side) (cs : list (Z * N)) (fs written
   | None => (vsym "desync", false)
   end.
 
+(* ---- held values (Model/ReadBuf.v) ---- *)
+
+(* one frame as the raw reader meets it: what the last ReadFull of rawProto.readMessage leaves
+   in the pooled buffer is the payload behind the pipe ids; the body is the tail of the
+   unfiltered data; the md5 filter leaves its 16-byte digest behind it, gzip inflates into
+   fresh memory *)
+Definition held_msg (k : dkind) (f : bytes) (m : msg) (ids : bytes) : rmsg :=
+  let payload := skipn (5 + length ids) f in
+  let fresh := existsb (beqb "g"%byte) ids in
+  let postlen := (16 * length (List.filter (beqb "m"%byte) ids))%nat in
+  let prelen := (length payload - postlen - length (m_body m))%nat in
+  mkRmsg (firstn prelen payload) (m_body m) (skipn (length payload - postlen) payload) k fresh.
+
+(* the messages of a frame list, with (is somebody holding the body, key) per frame *)
+Fixpoint held_events (reg : registry) (lim : N) (k : dkind) (fs : list bytes)
+  : option (list ((nat * rmsg) * (bool * Z * byte))) :=
+  match fs with
+  | [] => Some []
+  | f :: r =>
+      match raw_unpack reg lim f with
+      | Ok (m, ids, _, []) =>
+          let mt := m_mtype m in
+          let keep := beqb mt x01 || beqb mt x03 || (beqb mt x02 && (st_code (m_status m) =? 0)%Z) in
+          option_map (cons ((O, held_msg k f m ids), (keep, m_seq m, mt))) (held_events reg lim k r)
+      | _ => None
+      end
+  end.
+
+Definition run_held (lim : N) (k : dkind) (fs : list bytes) : val :=
+  match held_events (Corr.C12.registry_of []) lim k fs with
+  | Some evs =>
+      let st := rrun code_zc (map fst evs) in
+      VL (sortZ (flat_map (fun '(v, (keep, q, mt)) =>
+                   if keep : bool
+                   then [((4 * q + Z.of_N (b2n mt))%Z, VL [VZ q; VN (b2n mt); VB v])]
+                   else [])
+                 (combine (views st) (map snd evs))))
+  | None => vsym "desync"
+  end.
+
+Definition kind_of (v : val) : option dkind :=
+  if sym_eqb v "string" then Some KPlainString
+  else if sym_eqb v "bytes" then Some KBytesBody
+  else None.
+
 Definition run (inp : val) : option val :=
   match inp with
+  | VL [VS tag; VN lim; kv; VL fs] =>
+      if bytes_eqb tag (str "held") then
+        match kind_of kv, frames_of fs with
+        | Some k, Some frames => Some (run_held lim k frames)
+        | _, _ => None
+        end
+      else None
   | VL [VN lim; VL gz; VL ca; VL cb; VL fab; VL fba] =>
       match Corr.C12.pairs_of gz, calls_of ca, calls_of cb, frames_of fab, frames_of fba with
       | Some t, Some csa, Some csb, Some ab, Some ba =>
